@@ -136,8 +136,11 @@ def history(rng, inst, n):
                 w = "call ac %d set_target_temperature %d" % (a, rng.randint(10, 36))
             elif k < 0.7:
                 tt = rng.choice(["ON_TIMER", "OFF_TIMER"])
-                w = ("call ac %d clear_quick_timer %s" % (a, tt)) if rng.random() < 0.4 else (
-                    "call ac %d set_quick_timer %s time %d %d" % (a, tt, rng.randint(0, 23), rng.randint(0, 59)))
+                r_ = rng.random()
+                w = ("call ac %d clear_quick_timer %s" % (a, tt)) if r_ < 0.3 else (
+                    "call ac %d set_quick_timer %s time %d %d" % (a, tt, rng.randint(0, 23), rng.randint(0, 59))) if r_ < 0.65 else (
+                    # a duration with a seconds part (an application computing "until 22:00" from now), near the minute / hour / day edges too
+                    "call ac %d set_quick_timer %s duration %d" % (a, tt, rng.choice([59, 90, 3599, 5431, 86380, rng.randrange(1, 86400)])))
             elif k < 0.8 and zs:
                 w = "call zone %d set_power %s" % (rng.choice(zs), rng.choice(["OFF", "ON", "TURBO"]))
             elif k < 0.9 and zs:
@@ -298,6 +301,12 @@ def run(ctx, deep=False):
                     f5 = c04.frame_of(api5, s5[0][0])
                 except Exception:  # noqa: BLE001
                     ctx.count("call:unencodable")
+                    continue
+                if " duration " in st[1]:
+                    # the quick-timer message of both generations: sub-id, then AC, timer type, hours, minutes
+                    if f4[1][2:] != f5[1][2:]:
+                        bad("C19:meaning:quick_timer_duration", "equivalent consoles, `%s`: the AirTouch 4 message carries (AC, type, hours, minutes) = %s, the AirTouch 5 message %s" % (
+                            st[1], list(f4[1][2:]), list(f5[1][2:])), inst=inst, call=st[1], kind_="meaning")
                     continue
                 if "quick_timer" in st[1]:
                     a = int(st[1].split()[2])
